@@ -223,6 +223,24 @@ HARNESSES += [
          bound="one inode per scan: every number, link count, mode, flag word, size, i_blocks, i_block[] content, xattr block among 16 blocks; "
                "to-move bitmap and a 2-entry move list (targets up to 2^48 with the 64bit feature) symbolic"),
 ]
+def ub_uw(ng, bpg):
+    nb = 1 + ng * bpg
+    return ["main.%d:%d" % (i, nb + 1) for i in range(14)] + \
+        ["ext2fs_mark_generic_bmap.0:%d" % (nb + 1), "ext2fs_unmark_generic_bmap.0:%d" % (nb + 1), "ext2fs_test_generic_bmap.0:%d" % (nb + 1),
+         "disable_uninit_bg.0:%d" % (ng + 1), "ext2fs_group_desc_csum_set.0:%d" % (ng + 1), "test_root.0:4"]
+
+HARNESSES += [
+    dict(name="uninitbg", src="uninitbg.c", extra_src=["lib/ext2fs/blknum.c", "lib/ext2fs/closefs.c"],
+         cut_statics={"misc/tune2fs.c": ["zero_empty_inodes"]},
+         funcs=["disable_uninit_bg", "request_fsck_afterwards", "ext2fs_super_and_bgd_loc2", "ext2fs_bg_has_super", "ext2fs_bg_flags",
+                "ext2fs_bg_itable_unused"],
+         stubs=BM_STUBS + ["ext2fs_read_bitmaps", "zero_empty_inodes", "ext2fs_group_desc_csum_set", "com_err", "perror", "gettimeofday"],
+         configs=[{"FLAG": "0x0010", "NG": 3, "BPG": 16, "_unwindset": ub_uw(3, 16)},
+                  {"FLAG": "0x0400", "NG": 3, "BPG": 16, "_unwindset": ub_uw(3, 16)}],
+         unwind=4, backends=["default", "kissat"], witness_per_config=True,
+         bound="3 groups x 16 blocks, 1 KiB blocks; every descriptor's flags / itable_unused / bitmap locations, in-use set, sparse_super, "
+               "s_state, other ro_compat bits, failure of either callee: symbolic; FLAG = gdt_csum / metadata_csum per query"),
+]
 MANIFEST = {
     "level": "model_checking",
     "technique": "Bounded-exhaustive model checking (CBMC 6.11) of kernel slices of misc/tune2fs.c and lib/e2p/feature.c compiled from the real "
